@@ -36,9 +36,9 @@ ASSUMPTIONS = [
     "a HeterogeneousLinearModel applied at another resolution uses the nearest-neighbour (cv2.INTER_NEAREST) resampling of its original label map",
 ]
 FLOORS = {
-    "quick": {"two_live_objects": 400, "parameter_buffer_reused": 150, "labelwise_wrapper_integer_signals": 200, "heterogeneous_update_history": 300, "labelwise_wrapper": 200, "clip": 300, "linear": 300, "combined_composition": 100, "combined_routing": 300, "heterogeneous_linear": 80, "heterogeneous_resolution_history": 100, "combined_routing_grouped": 100, "threshold": 150, "threshold_integer_signals": 500, "kernel_reproduces_values": 60, "kernel_values_updated": 100, "kernel_supports_replaced": 25, "heterogeneous_integer_signals": 150, "combined_with_labelwise_part": 150, "linear_models_on_images": 150, "threshold_3d_label_maps": 100, "combined_vector_valued_dof": 80, "kernel_advanced_updated": 15,
+    "quick": {"two_live_objects": 400, "combined_called_with_mask": 80, "identity_model_reparametrised": 300, "parameter_buffer_reused": 150, "labelwise_wrapper_integer_signals": 200, "heterogeneous_update_history": 300, "labelwise_wrapper": 200, "clip": 300, "linear": 300, "combined_composition": 100, "combined_routing": 300, "heterogeneous_linear": 80, "heterogeneous_resolution_history": 100, "combined_routing_grouped": 100, "threshold": 150, "threshold_integer_signals": 500, "kernel_reproduces_values": 60, "kernel_values_updated": 100, "kernel_supports_replaced": 25, "heterogeneous_integer_signals": 150, "combined_with_labelwise_part": 150, "linear_models_on_images": 150, "threshold_3d_label_maps": 100, "combined_vector_valued_dof": 80, "kernel_advanced_updated": 15,
               "kernel_numba_equals_plain_sum": 150, "kernel_signals_on_8bit_scale": 8, "polynomial_span": 100},
-    "thorough": {"two_live_objects": 4000, "parameter_buffer_reused": 1500, "labelwise_wrapper_integer_signals": 2000, "heterogeneous_update_history": 3000, "labelwise_wrapper": 2000, "clip": 3000, "linear": 3000, "combined_composition": 1000, "combined_routing": 3000, "heterogeneous_linear": 800, "heterogeneous_resolution_history": 1000, "combined_routing_grouped": 1000, "threshold": 1500, "threshold_integer_signals": 5000, "kernel_reproduces_values": 600, "kernel_values_updated": 1000, "kernel_supports_replaced": 250, "heterogeneous_integer_signals": 1500, "combined_with_labelwise_part": 1500, "linear_models_on_images": 1500, "threshold_3d_label_maps": 1000, "combined_vector_valued_dof": 800, "kernel_advanced_updated": 150,
+    "thorough": {"two_live_objects": 4000, "combined_called_with_mask": 800, "identity_model_reparametrised": 3000, "parameter_buffer_reused": 1500, "labelwise_wrapper_integer_signals": 2000, "heterogeneous_update_history": 3000, "labelwise_wrapper": 2000, "clip": 3000, "linear": 3000, "combined_composition": 1000, "combined_routing": 3000, "heterogeneous_linear": 800, "heterogeneous_resolution_history": 1000, "combined_routing_grouped": 1000, "threshold": 1500, "threshold_integer_signals": 5000, "kernel_reproduces_values": 600, "kernel_values_updated": 1000, "kernel_supports_replaced": 250, "heterogeneous_integer_signals": 1500, "combined_with_labelwise_part": 1500, "linear_models_on_images": 1500, "threshold_3d_label_maps": 1000, "combined_vector_valued_dof": 800, "kernel_advanced_updated": 150,
                  "kernel_numba_equals_plain_sum": 1500, "kernel_signals_on_8bit_scale": 80, "polynomial_span": 100},
 }
 SHARD_TIMEOUT = {"quick": 1500, "thorough": 7200}
@@ -133,6 +133,19 @@ def run_shard(spec, R):
                     good = np.allclose(vals[0], fs * sig + fo, rtol=0, atol=1e-12 * sc)
                     good &= np.allclose(vals[2], a * vals[0] + (1 - a) * vals[1], rtol=0, atol=1e-12 * sc * (abs(a) + 1))
                     R.check(bool(good), "linear", case)
+            # models that start out as the identity (default parameters), are used, re-parametrised and used again
+            if name != "image":
+                for label_d, m_d, upd_d, f_d in (("ScalingModel", darsia.ScalingModel(), [2.5], lambda a_: 2.5 * a_), ("LinearModel", darsia.LinearModel(), [1.5, -0.25], lambda a_: 1.5 * a_ - 0.25),
+                                                 ("ScalingModel", darsia.ScalingModel(scaling=1.0), [0.5], lambda a_: 0.5 * a_)):
+                    okd, firstd = R.guarded("linear", lambda: m_d(sig.copy()))
+                    if okd:
+                        okd, _d = R.guarded("linear", lambda: m_d.update_model_parameters(np.array(upd_d), None))
+                    if okd:
+                        okd, secd = R.guarded("linear", lambda: m_d(sig.copy()))
+                    if okd:
+                        R.check(np.allclose(np.asarray(firstd, float), sig, rtol=1e-14, atol=1e-14) and np.allclose(np.asarray(secd, float), f_d(sig), rtol=1e-14, atol=1e-14), "linear",
+                                {"model": label_d, "signal": name, "what": "default (identity) model used, re-parametrised, used again", "new_parameters": upd_d}, group=label_d + "/identity_then_update")
+                        R.count("identity_model_reparametrised")
             # parameter routing of the linear model
             for dofs, params, exp in ((None, [1.5, 0.25], (1.5, 0.25)), (["scaling"], [3.0], (3.0, 7.0)), (["offset"], [0.5], (2.0, 0.5)), (["offset", "scaling"], [4.0, 0.75], (4.0, 0.75)),
                                       # the documented spelling of "every parameter"
@@ -224,6 +237,16 @@ def run_shard(spec, R):
                          "max_deviation": float(np.max(np.abs(out - exp))) if out.shape == hshape else None}, group=wlabel)
         R.sig(["labelwise_wrapper", len(hvals)], len(hvals) > 1, cls="labelwise_wrapper")
 
+        # a combined model that ends in a thresholding model is called with the mask that model takes
+        xm = rng.uniform(-1, 2, size=(6, 7))
+        mk = rng.random((6, 7)) < 0.6
+        lin_m, clip_m, thr_m = darsia.LinearModel(scaling=1.3, offset=0.1), darsia.ClipModel(**{"min value": 0.0, "max value": 1.5}), darsia.StaticThresholdModel(0.2, 1.2)
+        okm, outm = R.guarded("combined_composition", lambda: darsia.CombinedModel([lin_m, clip_m, thr_m])(xm.copy(), mk.copy()))
+        if okm:
+            expm = thr_m(clip_m(lin_m(xm.copy())), mk.copy())
+            R.check(np.array_equal(np.asarray(outm), np.asarray(expm)) and not bool(np.any(np.asarray(outm)[~mk])), "combined_composition",
+                    {"model": "CombinedModel", "parts": ["LinearModel", "ClipModel", "StaticThresholdModel"], "what": "called with a mask", "outside_mask_reported": int(np.sum(np.asarray(outm)[~mk]))}, group="with_mask")
+            R.count("combined_called_with_mask")
         # ============================================================ combined
         parts_pool = [
             ("LinearModel", lambda: darsia.LinearModel(scaling=float(rng.uniform(0.5, 2)), offset=float(rng.uniform(-0.3, 0.3))), ["scaling", "offset"]),
